@@ -33,8 +33,9 @@ Definition oracle_at (lives : list obs) (ends : list N) (k : N) (ro : option obs
 Definition gen_rec :=
   (list op * list bool * list obs * list N * list N * N * list byte * list (N * N * N * option obs) * N)%type.
   (* ops, results, live observations, LOGICAL end offset of each call's records (WalStatus.size_bytes),
-     ACK offset of each call (= its end offset once an fsync covered it: immediately under
-     SyncMode::Immediate, at the next batch / explicit sync under Batched / Manual, never = 10^18),
+     ACK offset of each call (= the length the log had on disk when the fsync that covered the call
+     completed: its own end under SyncMode::Immediate, the end of the batch / of everything logged
+     so far at the next batch / explicit sync under Batched / Manual; never = 10^18),
      length after open, file bytes, crash observations, continuing offset *)
 (* crash observations are run-length encoded by the harness: (from, to, step, observation) means
    that recovery was run at the offsets from, from+step, .., to and showed this observation each
